@@ -93,9 +93,9 @@ def pb_params(tier, seed):
 def build_batch(run, seed, p):
     """Generate + build one batch; modules the current tree rejects are dropped and counted."""
     name = f"pb-{run.tier}-{p['idx']}"
-    exclude, rejected = set(), {}
-    for attempt in range(6):
-        d, traits, desc = _batch.make_batch(seed * 16 + p["idx"], p["n"], name, exclude=exclude)
+    exclude, lite, rejected = set(), set(), {}
+    for attempt in range(8):
+        d, traits, desc = _batch.make_batch(seed * 16 + p["idx"], p["n"], name, exclude=exclude, lite=lite)
         ok, exe, errs, tail = _diag.build(d, PB_TARGET, release=p["release"], timeout=3000)
         if ok:
             return exe, desc, rejected, d
@@ -109,7 +109,10 @@ def build_batch(run, seed, p):
                 raise Infra(f"program batch does not build (not attributable to a generated definition): {f}: {msgs[:3]}\n{tail[-1500:]}")
         if not bad:
             raise Infra("program batch does not build:\n" + tail[-3000:])
-        exclude |= bad
+        # a trait module is first retried without the by-name vtable getters, then dropped
+        retry = {b for b in bad if b.startswith("m") and b not in lite}
+        lite |= retry
+        exclude |= bad - retry
     raise Infra("program batch still does not build after dropping rejected modules")
 
 
